@@ -63,6 +63,9 @@ def gen_ops(rng, n, writes=True):
             if writes:
                 ops.append(['set', [[[0, 0, rng.randrange(2)], rng.choice([5, 7, 12])]]])
             ops.append(['get', [0, 1, rng.randrange(3)]])
+        elif rng.random() < 0.35 and writes:
+            v1, v2 = rng.choice([(1, True), (True, 1), (0, False), (False, 0), (1, 1.0), (2.0, 2), (0.0, 0)])
+            ops += [['set', [[[0, 0, 0], v1]]], ['get', [0, 1, rng.randrange(3)]], ['set', [[[0, 0, 0], v2]]], ['get', [0, 0, 0]], ['get', [0, 2, 2]], ['many', [[0, 0, 0], [0, 1, 0]]]]
         elif rng.random() < 0.5 and writes:
             ops += [['set', [[[1, 0, 1], rng.choice([50, 0, 'txt'])]]], ['get', [1, 0, 2]], ['get', [1, 1, 2]], ['set', [[[0, 0, 0], 9]]], ['get', [1, 1, 2]], ['get', [1, 1, 0]]]
         else:
